@@ -158,6 +158,64 @@ def scn_ops(T, case):
             T.prove("C19.is_supported.true_only_if_some_discoverable_plugin_supports_it", T.any([c for _, c in conds]))
 
 
+# ------------------------------------------------------------------------------------ lookups depend on the registry only (no hidden state)
+def cases_sequences(tier):
+    for st in ([], ["a"], ["a", "b"]):
+        for prio in (False, True):
+            yield "state=%s/then-add-%s" % (",".join(st), "prioritized" if prio else "appended"), {"state": st, "prio": prio}
+
+
+def _spec_lookup(T, view, method):
+    """(found?, plug-in) for a bare method name on the abstract view, with the symbolic answers of the plug-ins."""
+    out = []
+    for n, p in view:
+        c = (p._disc & p.is_supported(method)) if T.symbolic else (bool(p._disc) and bool(p.is_supported(method)))
+        out.append((p, c))
+    return out
+
+
+def scn_sequences(T, case):
+    """lookup, registration, lookup again, on the same manager object: the second lookup must be answered from the CURRENT registry
+    (the inductive argument of the operations scenario presupposes that the registry is the manager's only state)."""
+    from ropt.exceptions import ConfigError
+
+    log = []
+    mgr, plugs, other = _manager(T, case["state"], log)
+    new = FakePlugin(T, "new", log)
+    method = "m"
+
+    def lookup():
+        try:
+            return mgr.get_plugin("optimizer", method), mgr.is_supported("optimizer", method)
+        except ConfigError:
+            return None, mgr.is_supported("optimizer", method)
+
+    first, sup1 = lookup()
+    mgr.add_plugin("optimizer", "New", new, prioritize=case["prio"])
+    second, sup2 = lookup()
+    explicit_ok = True
+    try:
+        got = mgr.get_plugin("optimizer", "NEW/" + method)
+    except ConfigError:
+        got = None
+    for tag, res, sup, view in (("before", first, sup1, [(n, plugs[n]) for n in case["state"]]),
+                               ("after", second, sup2, ([("new", new)] + [(n, plugs[n]) for n in case["state"]]) if case["prio"] else ([(n, plugs[n]) for n in case["state"]] + [("new", new)]))):
+        conds = _spec_lookup(T, view, method)
+        T.prove("C19.sequence.is_supported_agrees_with_lookup", sup == (res is not None))
+        if res is None:
+            T.prove("C19.sequence.lookup_%s_registration_fails_only_if_nothing_qualifies" % tag, T.all([(~c if T.symbolic else not c) for _, c in conds] or [True]))
+        else:
+            idx = [p for p, _ in conds].index(res) if res in [p for p, _ in conds] else None
+            T.prove("C19.sequence.lookup_%s_registration_returns_a_registered_plugin" % tag, idx is not None)
+            if idx is not None:
+                T.prove("C19.sequence.lookup_%s_registration_returns_the_first_qualifying_plugin_of_the_current_registry" % tag,
+                        T.all([conds[idx][1]] + [(~c if T.symbolic else not c) for _, c in conds[:idx]]))
+    if got is None:
+        T.prove("C19.sequence.explicit_lookup_of_the_new_plugin_fails_only_if_unsupported", ~new.is_supported(method) if T.symbolic else not new.is_supported(method))
+    else:
+        T.prove("C19.sequence.explicit_lookup_finds_the_new_plugin_ignoring_case", got is new)
+
+
 # ------------------------------------------------------------------------------------ construction / isolation / built-ins
 def cases_isolation(tier):
     yield "two-managers", {}
@@ -216,6 +274,7 @@ def scn_isolation(T, case):
 
 SCENARIOS = [
     Scenario("operations_from_every_state", scn_ops, cases_ops, {"quick": 40, "thorough": 400}),
+    Scenario("lookup_registration_lookup", scn_sequences, cases_sequences, {"quick": 20, "thorough": 100}),
     Scenario("construction_and_isolation", scn_isolation, cases_isolation, {"quick": 2, "thorough": 5}),
 ]
 
